@@ -430,6 +430,15 @@ def _decoy():
 
 
 def run_paths(case, ob, site):
+    # what paths() returns may depend on the order in which the block's sets of identity-hashed nets are walked: the same
+    # design is built several times (different object addresses, hence different orders)
+    for rep in range(8):
+        _run_paths_once(case, ob, site)
+        if ob.sat:
+            break
+
+
+def _run_paths_once(case, ob, site):
     block = designs.build(case)
     if case.get('form') == 'copy':
         # "for every design": also one that copy_block() produced
@@ -608,8 +617,8 @@ def replay(cex):
             run_paths(c, ob, site_of(c))
             bad = [x['obligation'] for x in ob.sat if x.get('structural')]
             return cex['obligation'] in bad, 'failing facts on replay: %r' % bad[:5]
-        def one(block, s_, d_):
-            got = analysis.paths(s_, d_, block=block)[s_][d_]
+        def one(block, s_, d_, res):
+            got = res[s_][d_]
             # independent confirmation by a plain depth-first enumeration of simple net paths
             found = []
 
@@ -635,7 +644,7 @@ def replay(cex):
         # what paths() returns may depend on the order in which the block's sets are walked, which differs from process to
         # process: the pair of the counterexample first, then the other (src, dst) pairs, on a few fresh builds
         text = ''
-        for attempt in range(4):
+        for attempt in range(40):
             if attempt:
                 block = designs.build(c)
                 if c.get('form') == 'copy':
@@ -644,8 +653,10 @@ def replay(cex):
             srcs = sorted(block.wirevector_subset((pyrtl.Input, pyrtl.Register)), key=lambda w: w.name)
             dsts = sorted(block.wirevector_subset((pyrtl.Output, pyrtl.Register)), key=lambda w: w.name)
             pairs = [(by[cex['src']], by[cex['dst']])] + [(x, y) for x in srcs for y in dsts if (x.name, y.name) != (cex['src'], cex['dst'])]
+            # the call form of the check: one batch call for all pairs (what one pair's search leaves behind may matter)
+            res = analysis.paths(srcs, dsts, block=block) if attempt % 2 == 0 else None
             for s_, d_ in pairs:
-                bad, t_ = one(block, s_, d_)
+                bad, t_ = one(block, s_, d_, res if res is not None else analysis.paths(s_, d_, block=block))
                 text = text or t_
                 if bad:
                     return True, t_
